@@ -1109,6 +1109,8 @@ func (x *Exec) run(f *frame) Val {
 				case *MapV:
 					it := &mapIter{}
 					if b != nil {
+						// ranging over a map reads it (the runtime's concurrent-iteration check treats it so, too)
+						x.mapRace(b, false, in)
 						it.ents = x.rangeOrder(b.Ent)
 					}
 					f.regs[f.idx[in]] = it
